@@ -8,6 +8,7 @@
     for a function <=> it calls system and a privileged function (both on the same function);
     the fixed symbols are "ioctl" / "system"
  R3 the configured list is used
+ R1+ (added after seed C16c) CWE332 examines every configured pair (no take_while / early exit over config.pairs)
 """
 import itertools
 
